@@ -195,7 +195,8 @@ def run(ctx):
          sorted({s_ for v in res['viol'].values() for s_ in v}) or [poll.loc(poll.d)], 'exits with an unwritten cancellation: %s; %s' % (owed_exits, list(res['viol'])))
     # the Cancel write's failure is terminal (the "connection lost" exemption)
     for g, sbb, st_, agg in csend:
-        rets = P.root(P._local_whole(g, 0), inline=False)
+        from .common import deep_roots
+        rets = deep_roots(P, P._local_whole(g, 0), inline=False)
         ok = any(P.unbound(r) == ('call', g.id, sbb) and (('t', '?err') in p or ('t', 'errval') in p or ('v', 'Err') in p) for r, p in rets)
         R.ob('C03.cancel', ('dispatch poll', 'a failed cancel write ends the dispatch'), ok,
              'if the Cancel cannot be written the error is returned (the connection is given up) rather than silently dropped', [g.loc(st_)])
